@@ -436,7 +436,33 @@ func TestC11_StreamEEA(t *testing.T) {
 
 // ---------------------------------------------------------------- enumerated short histories
 
-// Every history "XOR(len1); At(off2, len2); XOR(5)" with off2 running over
+// withProbes appends two positioned reads that go back to the start of the
+// last bucket (or round) the history has reached and to the one before it, so
+// that a saved state that is wrong, missing or misplaced becomes visible.
+func withProbes(bucket int, ops []sOp) []sOp {
+	var pos, maxEnd uint64
+	for _, op := range ops {
+		if op.At {
+			pos = op.Off
+		}
+		pos += uint64(op.Len)
+		if pos > maxEnd {
+			maxEnd = pos
+		}
+	}
+	unit := effBucket(bucket)
+	if unit == 0 {
+		unit = 128
+	}
+	last := maxEnd / unit * unit
+	ops = append(ops, sOp{At: true, Off: last, Len: 3})
+	if last >= unit {
+		ops = append(ops, sOp{At: true, Off: last - unit, Len: 3, InPlace: true})
+	}
+	return ops
+}
+
+// Every history "XOR(len1); At(off2, len2); XOR(5)" (+ two probes) with off2 running over
 // EVERY offset from 0 to a round past the current position (so: every backward
 // seek, every seek into the buffered round, to its end, and past it), for every
 // bucket size of the property.
@@ -468,7 +494,7 @@ func TestC11_StreamSeekPairs(t *testing.T) {
 								continue
 							}
 							emit(streamCase{Kind: kind, Key: key, IV: iv, Bucket: b, Seed: seed, Guard: false,
-								Ops: []sOp{{Len: len1, InPlace: i%2 == 0}, {At: true, Off: uint64(off2), Len: len2, InPlace: i%3 == 0}, {Len: 5}}})
+								Ops: withProbes(b, []sOp{{Len: len1, InPlace: i%2 == 0}, {At: true, Off: uint64(off2), Len: len2, InPlace: i%3 == 0}, {Len: 5}})})
 						}
 						i++
 					}
@@ -478,7 +504,7 @@ func TestC11_StreamSeekPairs(t *testing.T) {
 	}, checkStream)
 }
 
-// Every history "At(off1, len1); At(off2, len2); XOR(3)" over a grid of
+// Every history "At(off1, len1); At(off2, len2); XOR(3)" (+ two probes) over a grid of
 // round/bucket boundary offsets: saved states created by seeking (not by
 // encrypting), then used by a second seek.
 func TestC11_StreamSeekGrid(t *testing.T) {
@@ -500,7 +526,7 @@ func TestC11_StreamSeekGrid(t *testing.T) {
 					for _, o2 := range offs {
 						for _, l2 := range lens {
 							c := streamCase{Kind: kind, Key: key, Bucket: b, Seed: seed,
-								Ops: []sOp{{At: true, Off: uint64(o1), Len: l1}, {At: true, Off: uint64(o2), Len: l2, InPlace: true}, {Len: 3}}}
+								Ops: withProbes(b, []sOp{{At: true, Off: uint64(o1), Len: l1}, {At: true, Off: uint64(o2), Len: l2, InPlace: true}, {Len: 3}})}
 							if kind == kindEEA {
 								c.Count, c.Bearer, c.Dir = uint32(seed), uint32(seed>>32)&31, uint32(seed>>40)&1
 							} else {
